@@ -183,7 +183,12 @@ Proof.
   match goal with |- context [fold_left ?f ?l ?s0] => destruct (fold_store_confirm_st l s0) as (A & B & C) end.
   rewrite A, B, C. cbn. repeat split; auto.
   intros k Hin Hnd. apply filter_In. split.
-  - apply in_or_app. right. apply filter_In. split; auto. unfold same_key in Hnd. rewrite Hnd. reflexivity.
+  - apply in_or_app.
+    destruct (existsb (fun d => (fst d =? fst k) && seqb (snd d) (snd k)) (st_db s)) eqn:Edb.
+    + left. apply existsb_exists in Edb. destruct Edb as (d & Hd & Hk). apply andb_true_iff in Hk. destruct Hk as [K1 K2].
+      apply N.eqb_eq in K1. apply seqb_spec in K2. destruct d as [d1 d2], k as [k1 k2]. cbn in *. subst. exact Hd.
+    + right. apply filter_In. split; [|rewrite Edb; reflexivity].
+      apply filter_In. split; auto. unfold same_key in Hnd. rewrite Hnd. reflexivity.
   - apply Bool.negb_true_iff. apply Bool.not_true_is_false. intros Hx. apply existsb_exists in Hx.
     destruct Hx as (d & Hd & Hk). apply filter_In in Hd. destruct Hd as [Hd1 Hd2].
     apply Bool.negb_true_iff in Hd2.
